@@ -12,7 +12,7 @@ Extraction "model.ml"
   Ldap.wire Ldap.msg_of_request Ldap.server_receive Ldap.serve_stream Ldap.encode_control Ldap.encode_controls
   Ldap.decode_control Ldap.norm_control Ldap.new_behera Ldap.print_filter Ldap.enc_filter Ldap.enc_request
   Response.new_response Response.run_setters Response.response_bytes Response.parse_response Response.parse_frames
-  Response.raw_of_control Mux.build Mux.register Mux.serve Mux.ascii_eqfold Mux.mux_empty
+  Response.raw_of_control Mux.build Mux.register Mux.serve Mux.run_events Mux.ascii_eqfold Mux.mux_empty
   Directory.drun Directory.dstep Directory.match_filter Directory.handle_bind
   Sys.step Sys.quiesce Sys.init Sys.fixed_cfg Sys.pinned_cfg Sys.run_labels Sys.do_op
   Writer.wrun Writer.winit Writer.wstep
